@@ -143,6 +143,15 @@ def observe_class(descs, N, variant, levels, first_ks, in_upto):
             q_count(n)
         for n in reversed(rng):
             q_level(n)
+    elif variant == 3:        # the instance is HELD across clear_cache and queried again
+        q_count(N)
+        Av.clear_cache()
+        other = Av.from_iterable([A.mk(d) for d in descs])     # a second, fresh instance
+        for n in reversed(rng):
+            q_count(n)
+        q_level(N)
+        chk("fresh instance after clear_cache: enumeration(%d)" % N, exp_counts, other.enumeration(N))
+        q_level(N - 1 if N else 0)
     else:                     # membership of a long permutation first, enumeration, levels down
         last = R.perms(N)[-1]
         chk("in(first query) %r" % (last,), last in levels[N], Perm(last) in av)
@@ -508,6 +517,24 @@ class ClassHistory:
             if v is not None and hi == last:
                 viols.append(v)
         canon = self._canon(objs, handle, its, hist)
+        # read-back: every iterator still alive is drained to the end (the state is rebuilt from
+        # its history for every transition, so consuming it here disturbs nothing); whatever
+        # it yields must complete an admissible answer
+        for i, rec in enumerate(its):
+            steps = 0
+            while not rec[4] and steps < 400:
+                steps += 1
+                try:
+                    v = self._advance(rec, ("drain", i))
+                except Exception as exc:  # noqa
+                    import traceback
+                    v = {"op": ("drain", i), "exception": repr(exc),
+                         "where": traceback.format_exc().splitlines()[-4:]}
+                    rec[4] = True
+                if v is not None:
+                    v["after_history_drain_of_iterator"] = [rec[0], rec[1]]
+                    viols.append(v)
+                    break
         return canon, viols
 
     def _advance(self, rec, op):
@@ -588,7 +615,7 @@ def shard_history(shard):
     part = Partial()
     model = ClassHistory(bA, bB, NH)
     warm = [(), (("count", "A", NH),), (("list", "A", 2), ("upto", NH), ("next", 0)),
-            (("in", "A", len(model.probes) - 1),)]
+            (("in", "A", len(model.probes) - 1),), (("first", model.first_k), ("next", 0))]
 
     def on_violation(hist, v):
         sig = v.pop("_sig", None) if isinstance(v, dict) else None
@@ -646,9 +673,9 @@ def run(ctx, only=None):
         pool3 = [p for n in (1, 2, 3) for p in R.perms(n)]
         fam_small = [b for r in range(1, 10) for b in itertools.combinations(pool3, r)]   # 511
         fam24 = R.bases(2, 4)                                                              # 561
-        fams = [(fam_small, N, (0, 1, 2)), (fam24, N, (0, 1, 2))]
+        fams = [(fam_small, N, (0, 1, 2, 3)), (fam24, N, (0, 1, 2, 3))]
         if not quick:
-            fams.append((R.bases(3, 4), 7, (0, 1)))
+            fams.append((R.bases(3, 4), 7, (0, 1, 3)))
             reps = sorted({R.sym_class_rep(b) for b in fam24})
             fams.append((reps, 8, (2,)))
         shards = []
@@ -720,7 +747,9 @@ def run(ctx, only=None):
         ctx.bounds["history"] = {"depth": depth, "bases": len(HISTORY_BASES),
                                  "live_iterators": ClassHistory.MAXIT,
                                  "initial_states": ["fresh", "pre-warmed to NH",
-                                                    "iterator in flight", "membership first"]}
+                                                    "up_to_length iterator in flight",
+                                                    "membership first", "first() iterator in flight"],
+                                 "read_back": "every live iterator is drained after every history"}
         ctx.section("history", states=ctx.states, transitions=ctx.transitions)
 
 
